@@ -14,7 +14,6 @@ from pyvc.spec import Registry
 from pyvc.values import NArr, SArr, Sym, fresh_name, to_z3
 
 
-
 @lemlib.lemma("nonnegative-numbers-with-equal-squares-are-equal", 2)
 def _roots_agree(y1, y2):
     return z3.Implies(z3.And(y1 >= 0, y2 >= 0, y1 * y1 == y2 * y2), y1 == y2)
@@ -167,13 +166,14 @@ def register(R: Registry):
 
     R.add(f"{PATH}:Path.tortuosity", prop="C10",
           variants={f"path-of-{L}-nodes": (lambda S, _L=L: dict(self=path_obj(S, sym_tree(S, "t"), _L))) for L in LENS},
+          requires=[("node-ids-in-the-tree-and-at-most-4-nodes", path_pre)],
           ensures=[("chord-over-length-or-one-for-a-zero-length-path", tort_post)])
 
     register_nodes(R)
     register_sholl(R)
     register_padding(R)
     register_lmeasure(R)
-    register_features(R)
+    register_frontend(R, register_features(R))
 
 
 def register_nodes(R):
@@ -237,7 +237,7 @@ def sholl_obj(S, name="rs"):
     return S.obj(Sholl, rs=ext_C10.Rows([a0.arr, a1.arr], m.z, "real"), rmax=S.real("rmax"), tree=None)
 
 
-def is_count_of(E, res, n, pred, what="count"):
+def is_count_of(E, res, n, pred):
     """`res` IS the number of positions i in [0, n) with pred(i):  res is the value cnt_m(|m|) of the counting function
     of a mask m that np.count_nonzero was applied to (ghost log of the model), |m| = n, and m[i] <=> pred(i) pointwise"""
     for mask, r in ext_C10.counted(E):
@@ -592,7 +592,44 @@ def register_lmeasure(R):
     R.add(f"{LM}:LMeasure.euc_distance", prop="C10",
           setup=lambda S: dict(self=lm(S), node=node_obj(S, sym_tree(S, "t"), "a")),
           raises={"ValueError": ("root-is-not-typed-soma", lambda E, v, o: z3.Not(root_is_soma(v["node"].fields["attach"])))},
-          ensures=[("distance-to-node-0", ed_post)])
+          ensures=[("distance-to-node-0", ed_post),
+                   ("root-is-typed-soma", lambda E, v, o: root_is_soma(o["node"].fields["attach"]))])
+
+    # ------------------------------------------------------------------ path_distance
+    def sorted_tree(S, n):
+        """n nodes, node 0 the only root, every other node's parent has a smaller index (the order every reader /
+        constructor of the library produces: C05) -- so the ancestor chain of a node has at most n-1 steps"""
+        t = tree_of_size(S, n)
+        pid = col(t, "pid").arr
+        S.assume(z3.Select(pid, 0) == -1)
+        for i in range(1, n):
+            S.assume(z3.Select(pid, i) < i)
+        return t
+
+    def chain(t, i0, n):
+        """p_0 = i0, p_{k+1} = pid[p_k]: the iterated parent function, and alive_k = no root met before step k"""
+        pid = col(t, "pid").arr
+        ps, alive = [i0], [z3.BoolVal(True)]
+        for _ in range(n - 1):
+            alive.append(z3.And(alive[-1], z3.Select(pid, ps[-1]) != -1))
+            ps.append(z3.Select(pid, ps[-1]))
+        return ps, alive
+
+    def pd_post(E, v, o):
+        a = o["node"]
+        t, i0 = a.fields["attach"], to_z3(a.fields["idx"], "int")
+        n = col(t, "pid").n
+        ps, alive = chain(t, i0, n)
+        total = z3.RealVal(0)
+        for k in range(n - 1):
+            total = total + z3.If(alive[k + 1], dist(E, t, ps[k], ps[k + 1]), z3.RealVal(0))
+        return to_z3(v["result"], "real") == total
+
+    R.add(f"{LM}:LMeasure.path_distance", prop="C10",
+          variants={f"tree-of-{n}-nodes": (lambda S, _n=n: (lambda t: dict(self=lm(S), node=node_obj(S, t, "a")))(sorted_tree(S, _n))) for n in (1, 2, 3, 4)},
+          ensures=[("sum-of-segment-lengths-along-the-ancestor-chain", pd_post)],
+          notes="number of nodes fixed per variant (1-4), parents before children; the node, the parent pointers and all coordinates "
+                "symbolic; the loop is unrolled (at most n-1 iterations are feasible)")
 
     # -------------------------------------------------------------------------- angle
     ARCCOS = z3.Function("arccos", z3.RealSort(), z3.RealSort())
@@ -642,10 +679,6 @@ def register_features(R):
     def sel(t, c, i):
         return to_z3(col(t, c).items[i], COLS[c])
 
-    def d2n(t, i, j):
-        """d2 for the concrete-shape tree representation: the same polynomial, read from the item lists"""
-        return d2(as_arrays(t), z3.IntVal(i), z3.IntVal(j))
-
     def as_arrays(t):
         """view of a concrete-shape tree as z3 arrays (so that d2 / dist apply unchanged)"""
         from pyvc.values import Obj, PDict
@@ -676,7 +709,8 @@ def register_features(R):
     R.add(f"{FEAT}:NodeFeatures.get_radial_distance", prop="C10",
           variants={f"tree-of-{n}-nodes": (lambda S, _n=n: dict(self=S.obj(NodeFeatures, tree=fixed_tree(S, _n)))) for n in (1, 2, 3, 4)},
           raises={"ValueError": ("root-is-not-typed-soma", lambda E, v, o: z3.Not(soma_typed(v["self"].fields["tree"])))},
-          ensures=[("distance-of-every-node-to-node-0", rd_post)],
+          ensures=[("distance-of-every-node-to-node-0", rd_post),
+                   ("root-is-typed-soma", lambda E, v, o: soma_typed(o["self"].fields["tree"]))],
           notes="number of nodes fixed per variant (1-4); coordinates symbolic")
 
     # ------------------------------------------------ furcation / tip masks and counts
@@ -701,7 +735,7 @@ def register_features(R):
 
         return f
 
-    def subset_obj(cls, n, wf_ids=True):
+    def subset_obj(cls, n):
         def f(S):
             t = sym_tree_fixed(S, n)  # ids arbitrary (the masks are defined through pid == id)
             return dict(self=S.obj(cls, _features=S.obj(NodeFeatures, tree=t)))
@@ -733,3 +767,89 @@ def register_features(R):
     R.add(f"{FEAT}:_SubsetNodesFeatures.get_count", prop="C10", variants=variants,
           ensures=[("one-element-the-number-of-nodes-of-the-subset", count_post)],
           notes="furcation and tip subsets; number of nodes fixed per variant (1-4)")
+    # ------------------------------------------------------- LMeasure.branch_order
+    # (here because it shares the concrete-shape tree helpers) the code's documented reading: the number of
+    # furcations on the path from the node to the root, the node itself included
+    from swcgeom.analysis.lmeasure import LMeasure
+    from swcgeom.core.tree import Tree
+
+    def bo_setup(n):
+        def f(S):
+            t = fixed_tree(S, n)
+            pid = col(t, "pid").items
+            S.assume(pid[0].z == -1)
+            for i in range(1, n):
+                S.assume(z3.And(pid[i].z >= 0, pid[i].z < i))  # parents before children
+            i0 = S.int("a_idx")
+            S.assume(z3.And(i0.z >= 0, i0.z < n))
+            return dict(self=S.obj(LMeasure, compartment_point=-1), node=S.obj(Tree.Node, attach=t, idx=i0, names=t.fields["names"]))
+
+        return f
+
+    def bo_post(E, v, o):
+        a = o["node"]
+        t, p = a.fields["attach"], to_z3(a.fields["idx"], "int")
+        n = col(t, "pid").shape[0]
+        ta = as_arrays(t)
+        pid, idc = col(ta, "pid").arr, col(ta, "id").arr
+        kids = lambda q: sum((z3.If(z3.Select(pid, j) == z3.Select(idc, q), 1, 0) for j in range(n)), z3.IntVal(0))
+        total, alive = z3.IntVal(0), z3.BoolVal(True)
+        for _ in range(n):
+            total = total + z3.If(z3.And(alive, kids(p) > 1), 1, 0)
+            alive = z3.And(alive, z3.Select(pid, p) != -1)
+            p = z3.Select(pid, p)
+        return to_z3(v["result"], "int") == total
+
+    R.add(f"{LM}:LMeasure.branch_order", prop="C10",
+          variants={f"tree-of-{n}-nodes": bo_setup(n) for n in (1, 2, 3, 4)},
+          ensures=[("number-of-furcations-on-the-root-path-node-included", bo_post)],
+          notes="number of nodes fixed per variant (1-4), parents before children; the node and the parent pointers symbolic")
+
+    return dict(fixed_tree=fixed_tree, as_arrays=as_arrays, is_furcation=is_furcation, is_tip=is_tip, soma_typed=soma_typed)
+
+
+# ===========================================================================
+# the single-tree front end: Features.get(name) dispatches to the evaluator of that name
+def register_frontend(R, H):
+    from swcgeom.analysis.feature_extractor import Features
+
+    def feats(S, t):
+        return S.obj(Features, tree=t)
+
+    def one_number(E, v, expected):
+        res = v["result"]
+        return isinstance(res, NArr) and res.shape == (1,) and to_z3(res.items[0], "real") == expected
+
+    def tree_len(E, t):
+        n, pid = col(t, "pid").n, col(t, "pid").arr
+        ys = [dist(E, t, z3.Select(pid, i), z3.IntVal(i)) for i in range(1, n)]
+        return sum(ys) if ys else z3.RealVal(0)
+
+    variants = {"node_count": lambda S: dict(self=feats(S, sym_tree(S, "t")), feature="node_count")}
+    variants.update({f"length,tree-of-{n}-nodes": (lambda S, _n=n: dict(self=feats(S, tree_of_size(S, _n)), feature="length")) for n in (1, 2, 3)})
+    for nm in ("node_radial_distance", "furcation_count", "tip_count"):
+        variants[f"{nm},tree-of-3-nodes"] = (lambda S, _nm=nm: dict(self=feats(S, H["fixed_tree"](S, 3)), feature=_nm))
+    variants["unknown-name"] = lambda S: dict(self=feats(S, sym_tree(S, "t")), feature="no_such_feature")
+    variants["bifurcation_count"] = lambda S: dict(self=feats(S, sym_tree(S, "t")), feature="bifurcation_count")
+
+    def get_post(E, v, o):
+        f, t = o["feature"], o["self"].fields["tree"]
+        if f == "node_count":
+            return one_number(E, v, z3.ToReal(nof(t)))
+        if f == "length":
+            return one_number(E, v, tree_len(E, t))
+        res = v["result"]
+        if f == "node_radial_distance":
+            ta = H["as_arrays"](t)
+            return isinstance(res, NArr) and res.shape == (3,) and z3.And(*[to_z3(res.items[i], "real") == dist(E, ta, z3.IntVal(i), z3.IntVal(0)) for i in range(3)])
+        if f in ("furcation_count", "tip_count"):
+            pred = H["is_furcation"] if f == "furcation_count" else H["is_tip"]
+            return one_number(E, v, z3.ToReal(sum((z3.If(pred(t, i), 1, 0) for i in range(3)), z3.IntVal(0))))
+        return False
+
+    R.add(f"{FEX}:Features.get", prop="C10", variants=variants,
+          raises={"ValueError": ("no-evaluator-of-that-name-or-root-not-typed-soma", lambda E, v, o: True if v["feature"] in ("no_such_feature", "bifurcation_count")
+                                 else (z3.Not(H["soma_typed"](v["self"].fields["tree"])) if v["feature"] == "node_radial_distance" else False))},
+          ensures=[("the-number-of-the-named-feature", get_post)],
+          notes="dispatch by name: node_count (symbolic tree), length (trees of 1-3 nodes), node_radial_distance / furcation_count / "
+                "tip_count (trees of 3 nodes), an unknown name and the deprecated bifurcation_count (no evaluator: ValueError)")
